@@ -429,6 +429,8 @@ class Engine:
             for c in old:
                 out |= {"Z": set("O"), "O": set("M"), "M": set("M"), "U": set("Z")}[c]
             return frozenset(out)
+        if cls == "sub":
+            return frozenset("ZOM") if "U" not in old else ALL
         return ALL
 
     # ----- switch ---------------------------------------------------------
@@ -633,6 +635,14 @@ class Engine:
                         if x2 is not None:
                             st = x2
                 return st
+            for r in self.rules:
+                h = getattr(r, "on_assume_cmp", None)
+                if h:
+                    x2 = h(self, st, op, x, y, truth, b)
+                    if x2 is False:
+                        return None
+                    if x2 is not None:
+                        st = x2
             # comparisons involving a count read out of a hash table: remembered for the bookkeeping rules
             if mentions(c, lambda e: e[0] == "call" and e[2].startswith("hashbrown::") and e[2].rsplit("::", 1)[1] in ("get", "get_mut")):
                 st = st.replace(flags=st.flags | {("cmp", op, x, y, truth)})
@@ -1006,6 +1016,15 @@ def classify_set(v, bp, st):
                 return "inc" if fresh else "stale-inc"
             if m in ("checked_sub", "wrapping_sub", "saturating_sub", "unchecked_sub", "strict_sub"):
                 return "dec" if fresh else "stale-dec"
+    # count - amount (group lowering by a computed amount)
+    if v[0] == "bin" and v[1] in ("Sub", "SubUnchecked") and not is_const(v[3], 1):
+        g = counter_read(v[2])
+        if g is not None and g[1] == box and g[2] == field:
+            return "sub" if (g[0], box, field) in st.fresh else "stale-sub"
+    if v[0] == "call" and v[2].startswith("core::num::<impl usize>::") and v[2].rsplit("::", 1)[1] in ("saturating_sub", "wrapping_sub") and len(v[3]) == 2 and not is_const(v[3][1], 1):
+        g = counter_read(v[3][0])
+        if g is not None and g[1] == box and g[2] == field:
+            return "sub" if (g[0], box, field) in st.fresh else "stale-sub"
     if v[0] == "call" and v[2] in ("core::num::<impl usize>::wrapping_sub", "core::num::<impl usize>::saturating_sub") and is_const(v[3][1], 1):
         g = counter_read(v[3][0])
         if g is not None and g[1] == box and g[2] == field:
